@@ -33,6 +33,9 @@ type Rec struct {
 type Case struct {
 	Header       []string   `json:"header"`
 	Tabs         bool       `json:"tabs"` // supplier lines indented with tabs instead of 16 spaces
+	// MixedIndent (non-zero): every supplier line has an indentation of its own (three bits per line choose among 16, 8,
+	// 4 and 17 spaces, one tab and two tabs): a table edited by hand, or pasted together from two releases
+	MixedIndent uint64 `json:"mixed_indent,omitempty"`
 	Suppliers    []Supplier `json:"supplier_table"`
 	Records      []Rec      `json:"records"`
 	BlankLines   int        `json:"blank_lines"` // blank lines between records
@@ -52,8 +55,12 @@ func write(c Case) []byte {
 	if c.Tabs {
 		indent = "\t\t"
 	}
-	for _, s := range c.Suppliers {
-		b.WriteString(indent + s.Code + "        " + s.Name + "\n")
+	for i, s := range c.Suppliers {
+		in := indent
+		if c.MixedIndent != 0 {
+			in = []string{"                ", "        ", "    ", "                 ", "\t", "\t\t"}[(c.MixedIndent>>(3*uint(i)%63))&7%6]
+		}
+		b.WriteString(in + s.Code + "        " + s.Name + "\n")
 	}
 	b.WriteString("\n")
 	for _, r := range c.Records {
@@ -268,6 +275,9 @@ var enzymeNameGen = rapid.StringMatching(`[A-Z][a-z]{2}[A-Z0-9]{0,3}[IVX]{1,4}`)
 
 func gen(t *rapid.T) Case {
 	c := Case{Tabs: rapid.Bool().Draw(t, "tabs"), BlankLines: rapid.IntRange(0, 2).Draw(t, "blank_lines"), FinalNewline: rapid.Bool().Draw(t, "final_newline")}
+	if rapid.IntRange(0, 3).Draw(t, "mixed_indent") == 0 {
+		c.MixedIndent = rapid.Uint64Range(1, 1<<63).Draw(t, "indent_per_line")
+	}
 	nh := rapid.IntRange(0, 12).Draw(t, "header_lines")
 	for i := 0; i < nh; i++ {
 		h := rapid.OneOf(textGen, rapid.SampledFrom([]string{"", " ", "REBASE version 104                                              withrefm.104", "                K        Takara (1/98)", "REBASE codes", "<ENZYME NAME>   Restriction enzyme name.", "<REFERENCES>only the primary references"})).Draw(t, "header_line")
